@@ -4,6 +4,8 @@ import (
 	"encoding/hex"
 	"fmt"
 
+	tmbytes "github.com/tendermint/tendermint/libs/bytes"
+
 	sdk "github.com/cosmos/cosmos-sdk/types"
 )
 
@@ -50,15 +52,26 @@ func ValidateGenesis(data GenesisState) error {
 		}
 	}
 
+	// the keys of the two maps must be spelled the way the export spells them: two spellings of one owner or
+	// of one ID (bech32 and hex both come in upper and lower case) would be two entries of the map for one
+	// record, and which of them survives the import would depend on the iteration order of the map
 	for ownerAddressStr := range data.WithdrawAddresses {
-		if _, err := sdk.AccAddressFromBech32(ownerAddressStr); err != nil {
+		ownerAddress, err := sdk.AccAddressFromBech32(ownerAddressStr)
+		if err != nil {
 			return err
+		}
+		if ownerAddress.String() != ownerAddressStr {
+			return fmt.Errorf("invalid withdraw address owner %s: want %s", ownerAddressStr, ownerAddress)
 		}
 	}
 
 	for requestContextID, requestContext := range data.RequestContexts {
-		if _, err := hex.DecodeString(requestContextID); err != nil {
+		id, err := hex.DecodeString(requestContextID)
+		if err != nil {
 			return err
+		}
+		if tmbytes.HexBytes(id).String() != requestContextID {
+			return fmt.Errorf("invalid request context ID %s: want %s", requestContextID, tmbytes.HexBytes(id))
 		}
 		if err := requestContext.Validate(); err != nil {
 			return err
